@@ -45,9 +45,12 @@ func NewRewrite(languageRules []LanguageRules, config Config) *Rewriter {
 
 func (engine *Rewriter) ApplyTo(schemas ast.Schemas, builders []ast.Builder, language string) ([]ast.Builder, error) {
 	var err error
-	// TODO: should we deepCopy the builders instead?
+	// the rules work on a copy: several of them append in place to the slices
+	// of the builders they are given.
 	newBuilders := make([]ast.Builder, 0, len(builders))
-	newBuilders = append(newBuilders, builders...)
+	for _, builder := range builders {
+		newBuilders = append(newBuilders, builder.DeepCopy())
+	}
 
 	// start by applying veneers common to all languages, then
 	// apply language-specific ones.
